@@ -3,6 +3,8 @@
 package fault
 
 import (
+	"syscall"
+	"strings"
 	"errors"
 	"fmt"
 	"os"
@@ -53,6 +55,22 @@ type Plan struct {
 	K          int    // k-th counted call fails (0 = never)
 	Persistent bool   // also every later counted call
 	Mode       string // error | short | short-error | short-read
+	Err        error  // the error injected (nil = ErrInjected)
+}
+
+// ierr builds the injected error: Plan.Err when set (an errno is wrapped in *os.PathError the
+// way the os package returns it), ErrInjected otherwise.
+func (f *Fs) ierr(op, name string) error {
+	f.mu.Lock()
+	e := f.Plan.Err
+	f.mu.Unlock()
+	if e == nil {
+		return ErrInjected
+	}
+	if _, ok := e.(syscall.Errno); ok {
+		return &os.PathError{Op: strings.ToLower(op), Path: name, Err: e}
+	}
+	return e
 }
 
 // Fs records every call and can inject one fault.
@@ -121,8 +139,8 @@ func (f *Fs) wrap(file afero.File, name string) afero.File {
 
 func (f *Fs) Create(name string) (afero.File, error) {
 	if hit, m := f.should("Create"); hit && m != "short-read" {
-		f.rec(Event{Op: "Create", Name: name, Err: ErrInjected.Error(), Fault: m})
-		return nil, ErrInjected
+		f.rec(Event{Op: "Create", Name: name, Err: "injected", Fault: m})
+		return nil, f.ierr("Create", name)
 	}
 	fl, err := f.Inner.Create(name)
 	f.rec(Event{Op: "Create", Name: name, Err: errStr(err)})
@@ -143,8 +161,8 @@ func (f *Fs) MkdirAll(path string, perm os.FileMode) error {
 }
 func (f *Fs) Open(name string) (afero.File, error) {
 	if hit, m := f.should("Open"); hit && m != "short-read" {
-		f.rec(Event{Op: "Open", Name: name, Err: ErrInjected.Error(), Fault: m})
-		return nil, ErrInjected
+		f.rec(Event{Op: "Open", Name: name, Err: "injected", Fault: m})
+		return nil, f.ierr("Open", name)
 	}
 	fl, err := f.Inner.Open(name)
 	f.rec(Event{Op: "Open", Name: name, Err: errStr(err)})
@@ -155,8 +173,8 @@ func (f *Fs) Open(name string) (afero.File, error) {
 }
 func (f *Fs) OpenFile(name string, flag int, perm os.FileMode) (afero.File, error) {
 	if hit, m := f.should("OpenFile"); hit && m != "short-read" {
-		f.rec(Event{Op: "OpenFile", Name: name, Flag: flag, Perm: perm, Err: ErrInjected.Error(), Fault: m})
-		return nil, ErrInjected
+		f.rec(Event{Op: "OpenFile", Name: name, Flag: flag, Perm: perm, Err: "injected", Fault: m})
+		return nil, f.ierr("OpenFile", name)
 	}
 	fl, err := f.Inner.OpenFile(name, flag, perm)
 	f.rec(Event{Op: "OpenFile", Name: name, Flag: flag, Perm: perm, Err: errStr(err)})
@@ -182,8 +200,8 @@ func (f *Fs) Rename(o, n string) error {
 }
 func (f *Fs) Stat(name string) (os.FileInfo, error) {
 	if hit, m := f.should("Stat"); hit && m != "short-read" {
-		f.rec(Event{Op: "Stat", Name: name, Err: ErrInjected.Error(), Fault: m})
-		return nil, ErrInjected
+		f.rec(Event{Op: "Stat", Name: name, Err: "injected", Fault: m})
+		return nil, f.ierr("Stat", name)
 	}
 	fi, err := f.Inner.Stat(name)
 	f.rec(Event{Op: "Stat", Name: name, Err: errStr(err)})
@@ -217,8 +235,8 @@ type File struct {
 func (fl *File) Close() error {
 	if hit, m := fl.fs.should("Close"); hit && m != "short-read" {
 		fl.inner.Close()
-		fl.rec(Event{Op: "Close", Name: fl.name, Err: ErrInjected.Error(), Fault: m})
-		return ErrInjected
+		fl.rec(Event{Op: "Close", Name: fl.name, Err: "injected", Fault: m})
+		return fl.fs.ierr("Close", fl.name)
 	}
 	err := fl.inner.Close()
 	fl.rec(Event{Op: "Close", Name: fl.name, Err: errStr(err)})
@@ -238,11 +256,11 @@ func (fl *File) Read(p []byte) (int, error) {
 			if len(p) > 1 {
 				n, _ = fl.inner.Read(p[:len(p)/2])
 			}
-			fl.rec(Event{Op: "Read", Name: fl.name, Len: len(p), N: n, Err: ErrInjected.Error(), Fault: m})
-			return n, ErrInjected
+			fl.rec(Event{Op: "Read", Name: fl.name, Len: len(p), N: n, Err: "injected", Fault: m})
+			return n, fl.fs.ierr("Read", fl.name)
 		default:
-			fl.rec(Event{Op: "Read", Name: fl.name, Len: len(p), Err: ErrInjected.Error(), Fault: m})
-			return 0, ErrInjected
+			fl.rec(Event{Op: "Read", Name: fl.name, Len: len(p), Err: "injected", Fault: m})
+			return 0, fl.fs.ierr("Read", fl.name)
 		}
 	}
 	n, err := fl.inner.Read(p)
@@ -275,11 +293,11 @@ func (fl *File) Write(p []byte) (int, error) {
 			if len(p) > 1 {
 				n, _ = fl.inner.Write(p[:len(p)/2])
 			}
-			fl.rec(Event{Op: "Write", Name: fl.name, Data: data, Len: len(p), N: n, Err: ErrInjected.Error(), Fault: m})
-			return n, ErrInjected
+			fl.rec(Event{Op: "Write", Name: fl.name, Data: data, Len: len(p), N: n, Err: "injected", Fault: m})
+			return n, fl.fs.ierr("Write", fl.name)
 		default:
-			fl.rec(Event{Op: "Write", Name: fl.name, Data: data, Len: len(p), Err: ErrInjected.Error(), Fault: m})
-			return 0, ErrInjected
+			fl.rec(Event{Op: "Write", Name: fl.name, Data: data, Len: len(p), Err: "injected", Fault: m})
+			return 0, fl.fs.ierr("Write", fl.name)
 		}
 	}
 	n, err := fl.inner.Write(p)
@@ -302,8 +320,8 @@ func (fl *File) Readdirnames(n int) ([]string, error) {
 }
 func (fl *File) Stat() (os.FileInfo, error) {
 	if hit, m := fl.fs.should("FStat"); hit && m != "short-read" {
-		fl.rec(Event{Op: "FStat", Name: fl.name, Err: ErrInjected.Error(), Fault: m})
-		return nil, ErrInjected
+		fl.rec(Event{Op: "FStat", Name: fl.name, Err: "injected", Fault: m})
+		return nil, fl.fs.ierr("FStat", fl.name)
 	}
 	fi, err := fl.inner.Stat()
 	fl.rec(Event{Op: "FStat", Name: fl.name, Err: errStr(err)})
